@@ -6,13 +6,20 @@ Open Scope R_scope.
 Definition ads_p (psat : R) : adsorbate RNum :=
   mkAds RNum (Some psat) None None None None None.
 
+(* c_pressure reads nothing of the adsorbate but its saturation pressure: the other fields are arbitrary *)
+Lemma c_pressure_factor_gen psat T v (r1 r2 : prep) oM o1 o2 o3 o4 :
+  0 < psat -> T <> 0 ->
+  c_pressure RNum v (p_mode r1) (p_mode r2) (p_unit r1) (p_unit r2) (mkAds RNum (Some psat) oM o1 o2 o3 o4) (Some T)
+  = Ok (spec_conv (p_canon psat r1) (p_canon psat r2) v).
+Proof.
+  intros Hp HT. unfold spec_conv.
+  destruct r1 as [[]| |], r2 as [[]| |]; cbn [p_mode p_unit p_canon pa_per punit_name]; solve_conv.
+Qed.
+
 (* c_pressure multiplies by exactly the SI factor, for every ordered pair of the 10 representations,
    every value, every positive saturation pressure and non-zero temperature. *)
 Lemma c_pressure_factor_all psat T v (r1 r2 : prep) :
   0 < psat -> T <> 0 ->
   c_pressure RNum v (p_mode r1) (p_mode r2) (p_unit r1) (p_unit r2) (ads_p psat) (Some T)
   = Ok (spec_conv (p_canon psat r1) (p_canon psat r2) v).
-Proof.
-  intros Hp HT. unfold spec_conv.
-  destruct r1 as [[]| |], r2 as [[]| |]; cbn [p_mode p_unit p_canon pa_per punit_name]; solve_conv.
-Qed.
+Proof. intros; now apply c_pressure_factor_gen. Qed.
